@@ -54,8 +54,9 @@ def truth_eval(node: ast.AST, env: dict) -> bool | None:
 class Branch:
     """One operator class inside the loop (or the prefix branch)."""
 
-    def __init__(self, table: str, body: list[ast.stmt], min_param: str, self_call: str, stream_next: tuple[str, ...]):
+    def __init__(self, table: str, body: list[ast.stmt], min_param: str, self_call: str, stream_next: tuple[str, ...], prec_table: str | None = None):
         self.table = table
+        table = prec_table or table
         self.body = body
         self.reads: list[ast.AST] = []
         self.prec_vars: set[str] = set()
@@ -98,7 +99,7 @@ class Branch:
                         break
 
 
-def find_branches(fn: ast.FunctionDef, tables: dict[str, str], self_call: str, stream_next: tuple[str, ...]) -> tuple[str, dict[str, Branch], ast.While | None]:
+def find_branches(fn: ast.FunctionDef, tables: dict[str, str], self_call: str, stream_next: tuple[str, ...], prec_table: str | None = None) -> tuple[str, dict[str, Branch], ast.While | None]:
     """tables: role -> table name suffix, e.g. {'prefix': 'PREFIX_OPS', ...}."""
     params = [a.arg for a in fn.args.args]
     if len(params) < 2:
@@ -111,5 +112,5 @@ def find_branches(fn: ast.FunctionDef, tables: dict[str, str], self_call: str, s
             tname = ast.unparse(n.test.comparators[0])
             for role, suffix in tables.items():
                 if tname.endswith(suffix) and role not in out:
-                    out[role] = Branch(suffix, n.body, min_param, self_call, stream_next)
+                    out[role] = Branch(suffix, n.body, min_param, self_call, stream_next, prec_table)
     return min_param, out, loop
